@@ -13,3 +13,5 @@ pub mod semi;
 pub mod fnsrc;
 pub mod textgen;
 pub mod props;
+pub mod decode;
+pub mod fuzzrt;
